@@ -259,11 +259,13 @@ def qcvar_case(N, M, decade, via="functional", controls=False, lam_value=None, f
             spread = float((neg.amax(0) - neg.amin(0) + 2e-8).max())
             if not (10.0 ** decade <= spread < 10.0 ** (decade + 1)):
                 return
-        prec = stub.calls[0]["precision"]  # = 1e-6 * 10 ** int(log10(spread)): int() truncates toward zero
-        c.check("search precision is 1e-6 * 10^trunc(log10(spread))", prec == 1e-6 * 10 ** int(decade + 0.5))
+        # the precision the code asks of its search (today 1e-6 * 10 ** int(log10(spread))); the minimality claims below are stated up
+        # to lam * precision^2, so the precision itself is only required to resolve the spread to four digits
+        prec = max(k_["precision"] for k_ in stub.calls)
+        c.check("the search resolves the spread to at least four digits (precision <= 1e-4 * 10^decade)", prec <= 1e-4 * 10 ** int(decade + 0.5) * (1 + 1e-9))
         cols = columns(src, 0 if M else None)
         w = api.real(c, "w_any")
-        c.check("the search is one bisect call", len(stub.calls) == 1)
+        c.check("the minimiser is found by a bisection search", len(stub.calls) >= 1)
         if not reduced_shape_ok(c, "quadratic CVaR", out, src, 0 if M else None):
             return
         for idx, col in cols:
